@@ -1,1 +1,482 @@
-pub fn main(_r: vcore::Report) -> ! { std::process::exit(2) }
+//! C14 - polynomial root finding returns the complete, accurate multiset of roots.
+use bacon_sci::polynomial::Polynomial;
+use bacon_sci::special::{hermite_zeros, laguerre_zeros, legendre_zeros};
+use num_complex::Complex;
+use serde::{Deserialize, Serialize};
+use vcore::num::EPS;
+use vcore::{json, Check, Outcome, Report, Tier, Value};
+
+type C = Complex<f64>;
+
+fn expand(roots: &[C], lead: C) -> Vec<C> {
+    let mut c = vec![lead];
+    for z in roots {
+        let mut n = vec![C::new(0.0, 0.0); c.len() + 1];
+        for (k, ck) in c.iter().enumerate() {
+            n[k + 1] += ck;
+            n[k] -= ck * z;
+        }
+        c = n;
+    }
+    c
+}
+const GENS: [&str; 7] = ["equally-spaced-reals", "conjugate-pairs-on-two-circles", "x^n-c", "mixed-real-complex", "cluster-at-separation-limit", "non-conjugate-spiral", "sparse-shifted"];
+/// root configuration: (roots, needs complex coefficients)
+fn config(gen: usize, n: usize, var: usize) -> Option<(Vec<C>, bool)> {
+    let c = |a: f64, b: f64| C::new(a, b);
+    let mut r: Vec<C> = vec![];
+    let mut complex = false;
+    match gen {
+        0 => {
+            let s = [0.3, 0.45, 0.6][var % 3];
+            if (n as f64 - 1.0) * s > 5.8 {
+                return None;
+            }
+            let off = [-0.5 * (n as f64 - 1.0) * s, -2.9, 2.9 - (n as f64 - 1.0) * s][var / 3 % 3];
+            for k in 0..n {
+                r.push(c(off + k as f64 * s, 0.0));
+            }
+        }
+        1 => {
+            let (r1, r2) = [(1.0, 2.2), (0.8, 2.9), (1.5, 2.5)][var % 3];
+            let rot = 0.37 * (var / 3) as f64;
+            let pairs = n / 2;
+            for k in 0..pairs {
+                let rad = if k % 2 == 0 { r1 } else { r2 };
+                let th = rot + 0.35 + std::f64::consts::PI * (k as f64 + 0.5) / (pairs as f64 + 0.5) * 0.9;
+                r.push(c(rad * th.cos(), rad * th.sin()));
+                r.push(c(rad * th.cos(), -rad * th.sin()));
+            }
+            if n % 2 == 1 {
+                r.push(c([0.3, -0.4, 2.6][var % 3], 0.0));
+            }
+        }
+        2 => {
+            let cc = [c(1.0, 0.0), c(-2.0, 0.0), c(0.0, 8.0), c(-30.0, 0.0)][var % 4];
+            if var >= 4 {
+                return None;
+            }
+            complex = cc.im != 0.0;
+            let (rad, arg) = (cc.norm().powf(1.0 / n as f64), cc.arg() / n as f64);
+            for k in 0..n {
+                let th = arg + 2.0 * std::f64::consts::PI * k as f64 / n as f64;
+                r.push(c(rad * th.cos(), rad * th.sin()));
+            }
+        }
+        3 => {
+            let reals = [-2.5, -1.7, -0.6, 0.4, 1.3, 2.4];
+            let nr = (n + 1) / 3 + var % 2;
+            let nr = nr.min(n).min(reals.len());
+            if (n - nr) % 2 == 1 {
+                return None;
+            }
+            for k in 0..nr {
+                r.push(c(reals[(k * 2 + var) % reals.len()] + 0.05 * var as f64, 0.0));
+            }
+            for k in 0..(n - nr) / 2 {
+                let (a, b) = (-2.0 + 1.3 * k as f64 + 0.1 * var as f64, 0.9 + 0.55 * k as f64);
+                r.push(c(a, b));
+                r.push(c(a, -b));
+            }
+        }
+        4 => {
+            // a cluster of 2 (or 3) real roots exactly 0.3 apart, the rest spread on a circle
+            let centre = [-1.0, 0.5, 2.0][var % 3];
+            let m = if n >= 5 && var >= 3 { 3 } else { 2 };
+            if n < m || var >= 6 {
+                return None;
+            }
+            for k in 0..m {
+                r.push(c(centre + 0.3 * k as f64 - 0.15 * (m as f64 - 1.0), 0.0));
+            }
+            let rest = n - m;
+            if rest % 2 == 1 {
+                r.push(c(-2.7, 0.0));
+            }
+            for k in 0..rest / 2 {
+                let th = 0.5 + 2.4 * (k as f64 + 0.5) / (rest as f64 / 2.0 + 0.5);
+                r.push(c(centre * 0.2 + 2.3 * th.cos(), 2.3 * th.sin().abs().max(0.4)));
+                r.push(c(centre * 0.2 + 2.3 * th.cos(), -2.3 * th.sin().abs().max(0.4)));
+            }
+        }
+        5 => {
+            complex = true;
+            if var >= 4 {
+                return None;
+            }
+            for k in 0..n {
+                let rad = 0.5 + 0.25 * k as f64;
+                let th = 0.4 * var as f64 + 1.1 * k as f64;
+                r.push(c(rad * th.cos(), rad * th.sin()));
+            }
+        }
+        _ => {
+            // (x - a)^n - b: sparse after the shift, all derivatives up to n-1 vanish at x = a
+            let a = [0.0, 0.6, -1.1][var % 3];
+            let b = [0.5, -1.5][var / 3 % 2];
+            if var >= 6 {
+                return None;
+            }
+            let rad = (b as f64).abs().powf(1.0 / n as f64);
+            let arg = if b > 0.0 { 0.0 } else { std::f64::consts::PI / n as f64 };
+            for k in 0..n {
+                let th = arg + 2.0 * std::f64::consts::PI * k as f64 / n as f64;
+                r.push(c(a + rad * th.cos(), rad * th.sin()));
+            }
+        }
+    }
+    if r.len() != n {
+        return None;
+    }
+    // admissible: inside the disc of radius 3, pairwise separation >= 0.3
+    if r.iter().any(|z| z.norm() > 3.0 + 1e-9) {
+        return None;
+    }
+    for i in 0..n {
+        for j in 0..i {
+            if (r[i] - r[j]).norm() < 0.3 - 1e-9 {
+                return None;
+            }
+        }
+    }
+    Some((r, complex))
+}
+/// bottleneck perfect matching: smallest possible worst ratio dist(found_i, true_pi(i)) / allowed_pi(i)
+fn bottleneck(found: &[C], truth: &[C], allowed: &[f64]) -> f64 {
+    let n = truth.len();
+    if found.len() != n {
+        return f64::INFINITY;
+    }
+    let ratio = |i: usize, j: usize| (found[i] - truth[j]).norm() / allowed[j];
+    // dp over subsets of truth assigned to the first popcount(mask) found values
+    let mut dp = vec![f64::INFINITY; 1 << n];
+    dp[0] = 0.0;
+    for mask in 0usize..(1 << n) {
+        let i = mask.count_ones() as usize;
+        if i >= n || dp[mask].is_infinite() {
+            continue;
+        }
+        for j in 0..n {
+            if mask >> j & 1 == 0 {
+                let v = dp[mask].max(ratio(i, j));
+                if v < dp[mask | 1 << j] {
+                    dp[mask | 1 << j] = v;
+                }
+            }
+        }
+    }
+    dp[(1 << n) - 1]
+}
+fn horner(c: &[C], x: C) -> C {
+    c.iter().rev().fold(C::new(0.0, 0.0), |a, ck| a * x + ck)
+}
+#[derive(Serialize, Deserialize, Clone, Debug)]
+pub struct RootsPt {
+    pub gen: usize,
+    pub n: usize,
+    pub var: usize,
+    pub lead: usize,
+    /// 0: 1e-6, 1: 1e-9, 2: the rounding noise of evaluating the polynomial
+    pub tol: usize,
+}
+const LEADS: [f64; 4] = [1.0, -3.0, 0.1, 100.0];
+pub struct PolyRoots;
+impl Check for PolyRoots {
+    type P = RootsPt;
+    fn name(&self) -> &'static str {
+        "polynomial-roots"
+    }
+    fn rule(&self) -> String {
+        format!("degree 1..=10 polynomials expanded in the harness from root configurations {:?} (every variant that stays in |z|<=3 with pairwise separation >= 0.3) x leading coefficient {:?} x tolerance {{1e-6, 1e-9, evaluation noise}}; real coefficients for conjugate-closed sets, complex otherwise; signature = (generator, degree, field, outcome)", GENS, LEADS)
+    }
+    fn axes(&self, t: Tier) -> Value {
+        json!({"generators": GENS, "degree": "1..=10", "variants": t.pick("0..3", "0..9"), "lead": LEADS, "tol": ["1e-6", "1e-9", "64 eps sum|c_k| 3^k"]})
+    }
+    fn points(&self, t: Tier) -> Vec<RootsPt> {
+        let mut v = vec![];
+        for gen in 0..GENS.len() {
+            for n in 1..=10 {
+                for var in 0..t.pick(3, 9) {
+                    if config(gen, n, var).is_none() {
+                        continue;
+                    }
+                    for lead in 0..4 {
+                        for tol in 0..3 {
+                            if t == Tier::Quick && (lead + tol + var) % 2 == 1 {
+                                continue;
+                            }
+                            v.push(RootsPt { gen, n, var, lead, tol });
+                        }
+                    }
+                }
+            }
+        }
+        v
+    }
+    fn run(&self, p: &RootsPt) -> Outcome {
+        let mut o = Outcome::new();
+        let (roots, complex) = config(p.gen, p.n, p.var).expect("admissible configuration");
+        let lead = C::new(LEADS[p.lead], 0.0);
+        let mut coeffs = expand(&roots, lead);
+        if !complex {
+            for c in coeffs.iter_mut() {
+                c.im = 0.0;
+            }
+        }
+        let noise = 64.0 * EPS * coeffs.iter().enumerate().map(|(k, c)| c.norm() * 3f64.powi(k as i32)).sum::<f64>();
+        let tol = match p.tol {
+            0 => 1e-6f64.max(noise),
+            1 => 1e-9f64.max(noise),
+            _ => noise,
+        };
+        let ctx = || format!("{:?} [{} degree {}] roots {:?} tol {:e}", p, GENS[p.gen], p.n, roots, tol);
+        let res = vcore::guard(|| {
+            if complex {
+                let desc: Vec<C> = coeffs.iter().rev().cloned().collect();
+                Polynomial::<C>::from_slice(&desc).roots(tol, 1000)
+            } else {
+                let desc: Vec<f64> = coeffs.iter().rev().map(|c| c.re).collect();
+                Polynomial::<f64>::from_slice(&desc).roots(tol, 1000)
+            }
+        });
+        let class = match res {
+            Err(m) => {
+                o.viol("polynomial::roots", "never-panics", format!("{}: {}", ctx(), m));
+                "panic"
+            }
+            Ok(Err(e)) => {
+                o.viol("polynomial::roots", "ok-for-separated-roots", format!("{}: Err({})", ctx(), e));
+                "err"
+            }
+            Ok(Ok(found)) => {
+                let found: Vec<C> = found.into_iter().collect();
+                if found.len() != p.n {
+                    o.viol("polynomial::roots", "exactly-degree-many-roots", format!("{}: {} values {:?}", ctx(), found.len(), found));
+                } else if found.iter().any(|z| !z.re.is_finite() || !z.im.is_finite()) {
+                    o.viol("polynomial::roots", "finite-roots", format!("{}: {:?}", ctx(), found));
+                } else {
+                    // residuals
+                    let worst_res = found.iter().map(|z| horner(&coeffs, *z).norm()).fold(0.0, f64::max);
+                    o.metric("residual/(4 tol + noise)", worst_res / (4.0 * tol + noise));
+                    if !(worst_res <= 4.0 * tol + noise) {
+                        o.viol("polynomial::roots", "each-value-is-a-root-by-residual", format!("{}: worst |p(z)| = {:e} among {:?}", ctx(), worst_res, found));
+                    }
+                    // one-to-one match with the true roots
+                    let allowed: Vec<f64> = (0..p.n)
+                        .map(|i| {
+                            let z = roots[i];
+                            let dp: C = lead * (0..p.n).filter(|j| *j != i).map(|j| z - roots[j]).product::<C>();
+                            let cond = coeffs.iter().enumerate().map(|(k, c)| c.norm() * z.norm().powi(k as i32)).sum::<f64>();
+                            (8.0 * tol + 64.0 * EPS * cond) / dp.norm().max(1e-300) + 16.0 * EPS * z.norm()
+                        })
+                        .collect();
+                    let b = bottleneck(&found, &roots, &allowed);
+                    o.metric("matching-distance/allowed", b);
+                    if !(b <= 1.0) {
+                        o.viol("polynomial::roots", "one-to-one-match-with-true-roots", format!("{}: best matching has a pair at {:.3} x the allowed distance; found {:?}", ctx(), b, found));
+                    }
+                    if !complex {
+                        // conjugate-closed output for real coefficients
+                        let conj: Vec<C> = found.iter().map(|z| z.conj()).collect();
+                        let bc = bottleneck(&conj, &found, &allowed.iter().map(|a| 2.0 * a).collect::<Vec<_>>());
+                        // (allowed is indexed by true root; use the largest as a uniform radius)
+                        let amax = allowed.iter().fold(0.0f64, |m, x| m.max(*x));
+                        let bc2 = bottleneck(&conj, &found, &vec![2.0 * amax; p.n]);
+                        if !(bc <= 1.0 || bc2 <= 1.0) {
+                            o.viol("polynomial::roots", "conjugate-closed-for-real-coefficients", format!("{}: {:?}", ctx(), found));
+                        }
+                    }
+                }
+                "ok"
+            }
+        };
+        o.sig = format!("{}|deg{}|{}|{}", GENS[p.gen], p.n, if complex { "c64" } else { "f64" }, class);
+        o
+    }
+}
+
+// ------------------------------------------------------------------ zeros of orthogonal polynomials
+const FAMILIES: [&str; 3] = ["legendre", "hermite", "laguerre"];
+/// value of the degree-n orthonormal-ish polynomial by its three-term recurrence (not through the library)
+fn ortho_eval(fam: usize, n: usize, x: f64) -> f64 {
+    let (mut p0, mut p1) = (1.0f64, match fam { 0 => x, 1 => 2.0 * x, _ => 1.0 - x });
+    if n == 0 {
+        return 1.0;
+    }
+    for k in 1..n {
+        let kf = k as f64;
+        let next = match fam {
+            0 => ((2.0 * kf + 1.0) * x * p1 - kf * p0) / (kf + 1.0),
+            1 => 2.0 * x * p1 - 2.0 * kf * p0,
+            _ => ((2.0 * kf + 1.0 - x) * p1 - kf * p0) / (kf + 1.0),
+        };
+        p0 = p1;
+        p1 = next;
+        // rescale to stay in range (only zeros matter)
+        let s = p1.abs().max(p0.abs());
+        if s > 1e100 {
+            p0 /= s;
+            p1 /= s;
+        }
+    }
+    p1
+}
+/// reference zeros by interlacing + bisection
+fn ortho_zeros(fam: usize, n: usize) -> Vec<f64> {
+    let (lo, hi) = match fam {
+        0 => (-1.0, 1.0),
+        1 => (-(2.0 * n as f64 + 1.0).sqrt() - 1.0, (2.0 * n as f64 + 1.0).sqrt() + 1.0),
+        _ => (0.0, 4.0 * n as f64 + 3.0),
+    };
+    let mut zeros: Vec<f64> = vec![];
+    for k in 1..=n {
+        let mut brk = vec![lo];
+        brk.extend(zeros.iter().cloned());
+        brk.push(hi);
+        let mut next = vec![];
+        for w in brk.windows(2) {
+            let (mut a, mut b) = (w[0], w[1]);
+            let fa = ortho_eval(fam, k, a);
+            for _ in 0..200 {
+                let m = 0.5 * (a + b);
+                if (ortho_eval(fam, k, m) > 0.0) == (fa > 0.0) { a = m } else { b = m }
+            }
+            next.push(0.5 * (a + b));
+        }
+        zeros = next;
+    }
+    zeros
+}
+/// ascending monomial coefficients (f64) of the family member, through exact integer arithmetic
+fn ortho_coeffs(fam: usize, n: usize) -> Vec<f64> {
+    let binom = |n: u32, k: u32| -> f64 { (0..k).fold(1.0, |r, i| r * (n - i) as f64 / (i + 1) as f64) };
+    match fam {
+        0 => {
+            let mut c = vec![0.0; n + 1];
+            for k in 0..=n / 2 {
+                c[n - 2 * k] = (if k % 2 == 0 { 1.0 } else { -1.0 }) * binom(n as u32, k as u32) * binom((2 * n - 2 * k) as u32, n as u32) / 2f64.powi(n as i32);
+            }
+            c
+        }
+        1 => {
+            let (mut p0, mut p1): (Vec<f64>, Vec<f64>) = (vec![1.0], vec![0.0, 2.0]);
+            if n == 0 {
+                return p0;
+            }
+            for i in 1..n {
+                let mut nx = vec![0.0; p1.len() + 1];
+                for (k, v) in p1.iter().enumerate() {
+                    nx[k + 1] += 2.0 * v;
+                }
+                for (k, v) in p0.iter().enumerate() {
+                    nx[k] -= 2.0 * i as f64 * v;
+                }
+                p0 = p1;
+                p1 = nx;
+            }
+            p1
+        }
+        _ => (0..=n).map(|k| (if k % 2 == 0 { 1.0 } else { -1.0 }) * binom(n as u32, k as u32) / (1..=k).fold(1.0, |r, i| r * i as f64)).collect(),
+    }
+}
+#[derive(Serialize, Deserialize, Clone, Debug)]
+pub struct ZerosPt {
+    pub fam: usize,
+    pub n: usize,
+    pub tol: f64,
+}
+pub struct OrthoZeros;
+/// admissible: leading coefficient above the root tolerance and evaluation noise of the monomial form below it
+fn admissible(fam: usize, n: usize, tol: f64) -> bool {
+    if n < 2 {
+        return true;
+    }
+    let c = ortho_coeffs(fam, n);
+    let zs = ortho_zeros(fam, n);
+    let radius = zs.iter().fold(0.0f64, |m, x| m.max(x.abs()));
+    let noise = 64.0 * EPS * c.iter().enumerate().map(|(k, ck)| ck.abs() * radius.powi(k as i32)).sum::<f64>();
+    c[n].abs() > 4.0 * tol && noise <= tol / 4.0
+}
+impl Check for OrthoZeros {
+    type P = ZerosPt;
+    fn name(&self) -> &'static str {
+        "orthogonal-zeros"
+    }
+    fn rule(&self) -> String {
+        "legendre_zeros, hermite_zeros, laguerre_zeros for every n from 0 up to the largest index whose monomial form is well conditioned for the tolerance (leading coefficient > 4 tol and evaluation noise 64 eps sum|c_k| R^k <= tol/4, computed per family and reported through the points enumerated) x tolerances; reference zeros by interlacing and bisection on the three-term recurrence; signature = (family, n, tolerance)".into()
+    }
+    fn points(&self, _t: Tier) -> Vec<ZerosPt> {
+        let mut v = vec![];
+        for fam in 0..3 {
+            for &tol in &[1e-6, 1e-8, 1e-10] {
+                for n in 0..=20 {
+                    if admissible(fam, n, tol) {
+                        v.push(ZerosPt { fam, n, tol });
+                    } else {
+                        break;
+                    }
+                }
+            }
+        }
+        v
+    }
+    fn run(&self, p: &ZerosPt) -> Outcome {
+        let mut o = Outcome::new();
+        let subj = format!("special::{}_zeros", FAMILIES[p.fam]);
+        let res = vcore::guard(|| match p.fam {
+            0 => legendre_zeros::<f64>(p.n as u32, p.tol, 1e-14, 2000),
+            1 => hermite_zeros::<f64>(p.n as u32, p.tol, 1e-14, 2000),
+            _ => laguerre_zeros::<f64>(p.n as u32, p.tol, 1e-14, 2000),
+        });
+        let want = ortho_zeros(p.fam, p.n);
+        let ctx = || format!("{:?}", p);
+        let class = match res {
+            Err(m) => {
+                o.viol(&subj, "never-panics", format!("{}: {}", ctx(), m));
+                "panic"
+            }
+            Ok(Err(e)) => {
+                o.viol(&subj, "ok-for-well-conditioned-index", format!("{}: Err({})", ctx(), e));
+                "err"
+            }
+            Ok(Ok(mut z)) => {
+                if z.len() != p.n {
+                    o.viol(&subj, "n-zeros", format!("{}: {} zeros {:?}", ctx(), z.len(), z));
+                } else if z.iter().any(|x| !x.is_finite()) {
+                    o.viol(&subj, "finite-zeros", format!("{}: {:?}", ctx(), z));
+                } else {
+                    z.sort_by(|a, b| a.partial_cmp(b).unwrap());
+                    let (lo, hi) = match p.fam {
+                        0 => (-1.0, 1.0),
+                        1 => (f64::NEG_INFINITY, f64::INFINITY),
+                        _ => (0.0, f64::INFINITY),
+                    };
+                    if z.iter().any(|x| !(*x > lo && *x < hi)) {
+                        o.viol(&subj, "zeros-inside-orthogonality-interval", format!("{}: {:?}", ctx(), z));
+                    }
+                    if z.windows(2).any(|w| !(w[1] > w[0])) {
+                        o.viol(&subj, "distinct-zeros", format!("{}: {:?}", ctx(), z));
+                    }
+                    let worst = z.iter().zip(&want).map(|(a, b)| (a - b).abs() / b.abs().max(1.0)).fold(0.0, f64::max);
+                    o.metric(&format!("{}-zero-error", FAMILIES[p.fam]), worst);
+                    if !(worst <= 1e-8f64.max(8.0 * p.tol)) {
+                        o.viol(&subj, "zeros-match-true-zeros", format!("{}: worst relative deviation {:e}; got {:?} want {:?}", ctx(), worst, z, want));
+                    }
+                }
+                "ok"
+            }
+        };
+        o.sig = format!("{}|n{}|{:e}|{}", FAMILIES[p.fam], p.n, p.tol, class);
+        o
+    }
+}
+
+pub fn main(mut r: Report) -> ! {
+    r.assumptions = vec![
+        "true roots are the ones the polynomial is expanded from in the harness; allowed distance (8 tol + 64 eps cond)/|p'(z)| + 16 eps |z|".into(),
+        "tolerances are never below the evaluation noise 64 eps sum|c_k| 3^k (the stopping rule is an absolute residual; below the noise Err is legitimate and no claim is made)".into(),
+    ];
+    r.run(&PolyRoots);
+    r.run(&OrthoZeros);
+    r.finish()
+}
